@@ -406,6 +406,12 @@ fn run_stream_case(s: &Spec, idx: u64, t: &mut Tally) {
                 let r = check(e, &m, "stream with its type byte replaced", t);
                 report(r, format!("type:{}", v), t);
             }
+            // the same replacement BEHIND the 0x13 wrapper (the inner stream's type byte)
+            if s.kind == Kind::Lz11 && v != 0x10 {
+                let w = wrap13(&m);
+                let r = check(Entry::Lz13, &w, "wrapped stream with its inner type byte replaced", t);
+                report(r, format!("inner-type:{}", v), t);
+            }
         }
     }
 }
@@ -546,8 +552,12 @@ fn run_case(tier: Tier, fam: &str, idx: u64, t: &mut Tally) {
         let mut toks: Vec<Token> = (0..d).map(|i| Token::Lit(lit_at(i))).collect();
         toks.push(Token::Ref { len, disp: d });
         toks.push(Token::Lit(0xE1));
+        // ... then a reference reaching back as far as the format allows (to the very first byte
+        // while the output is short): a decoder that miscounts what the probe produced rejects it
+        let back = (d + len + 1).min(4096);
+        toks.push(Token::Ref { len: 3, disp: back });
         toks.push(Token::Lit(0xE2));
-        let total = d + len + 2;
+        let total = d + len + 2 + 3;
         let good = ref_lz::encode(&toks, kind, total, None);
         t.cases += 1;
         t.nontrivial += 1;
@@ -585,7 +595,14 @@ fn run_case(tier: Tier, fam: &str, idx: u64, t: &mut Tally) {
         let mut toks: Vec<Token> = (0..4).map(|k| Token::Lit(lit_at(k))).collect();
         toks.push(Token::Ref { len, disp: d });
         toks.push(Token::Lit(0xE7));
-        let total = 4 + len + 1;
+        // ... then references reaching back 300 bytes and as far as the format allows
+        let produced = 4 + len + 1;
+        let mut total = produced;
+        for back in [300usize, 4096] {
+            let b = back.min(total);
+            toks.push(Token::Ref { len: 3, disp: b });
+            total += 3;
+        }
         let good = ref_lz::encode(&toks, kind, total, None);
         t.cases += 1;
         t.nontrivial += 1;
